@@ -67,7 +67,8 @@ BOUNDS = {
 PREFIX = "/components/cache/"
 CT = {"js": "text/javascript", "css": "text/css"}
 KINDS = ("js", "css")
-NAMES = ["Card", "CardList", "Card_", "Card_1a2b3c", "card", "C", "Table", "Tabl", "_Card", "CardCard", "Card_js", "js"]
+NAMES = ["Card", "CardList", "Card_", "Card_1a2b3c", "card", "C", "Table", "Tabl", "_Card", "CardCard", "Card_js", "js",
+         "L" * 236 + "ongA", "L" * 236 + "ongB"]  # two very long names with a long common prefix (legal identifiers)
 NON_GET = ["POST", "PUT", "DELETE", "PATCH", "OPTIONS", "HEAD", "TRACE"]
 
 _case_no = [0]
@@ -557,12 +558,14 @@ def render_op(ctx, op):
             return resp.content.decode("utf-8")
         return root.render(kwargs=kwargs, slots={"s": mark_safe(slot)}, type=mode)
     # template based
+    # dyn: the same page with every tag written as the dynamic component (the component is then named "dynamic")
+    head = (lambda i: "component 'dynamic' is='k%s'" % i) if op.get("dyn") else (lambda i: "component 'k%s'" % i)
     if nest:
         body = ""
         for i in reversed(ids):
-            body = "{%% component 'k%s' v=%d %%}%s{%% endcomponent %%}" % (i, v, body)
+            body = "{%% %s v=%d %%}%s{%% endcomponent %%}" % (head(i), v, body)
     else:
-        body = "".join("{%% component 'k%s' v=%d / %%}" % (i, v) for i in ids)
+        body = "".join("{%% %s v=%d / %%}" % (head(i), v) for i in ids)
     op_, cl_ = LAYOUTS.get(layout, ("", ""))
     raw = Template(op_ + body + cl_).render(Context({}))
     if via == "middleware" and mode == "document":
@@ -705,6 +708,8 @@ def run_hist(case):
                         st.renders_with_urls += 1
                     st.labels.add("mode:" + op["mode"])
                     st.labels.add("via:" + op["via"])
+                    if op.get("dyn") and op["via"] in ("template", "middleware"):
+                        st.labels.add("tags_written_as_dynamic_component")
                     st.labels.add("layout:" + op["layout"])
                     for u, idx, kind in found:
                         if u not in known:
@@ -811,6 +816,7 @@ def _op_strategy(n, max_steps):
             "layout": st.sampled_from(["headbody", "headbody", "headbody", "tags", "tags", "bare", "none"]),
             "nest": st.booleans(),
             "bytes": st.booleans(),
+            "dyn": st.sampled_from([False, False, True]),
             "v": st.integers(0, 1),
             "probe": st.one_of(st.none(), st.integers(0, 9)),
         }
